@@ -14,7 +14,8 @@ from mc.models import validator_table as VT
 
 ID = "C06"
 LEVEL = "exploration"
-REQUIRED_OUTCOMES = ["corrupt:refused", "converse:written", "converse:enum-written", "position:nested-variant",
+REQUIRED_OUTCOMES = ["corrupt:refused", "converse:written", "converse:enum-written", "order:refused-whatever-was-validated-first",
+                     "position:nested-variant",
                      "position:image-in-cell", "position:layered-product-release"]
 
 
@@ -197,9 +198,57 @@ def ci_valid(spec):
     return len(uids) == len(set(uids))
 
 
+FIRST_VALIDATED = ["none", "ci.base_product", "ci.release", "ci.compose", "ci.variant", "ci.variants", "im.image", "ti.base_product",
+                   "ti.release", "ti.tree", "ti.variant", "ti.media", "ti.stage2", "di"]
+ORDER_DRIVER = r"""
+import json, sys
+sys.path.insert(0, sys.argv[1]); sys.path.insert(0, sys.argv[2])
+from mc.core.runner import bind_repo
+bind_repo()
+from mc.checks import c06
+from mc.build import ci as CI, im as IM, ti as TI, misc as MISC
+first = sys.argv[3]
+ci = CI.build(CI.seed_layered()); ti = TI.build(TI.seed_layered()); im = IM.build(IM.seed_grid())
+target = {"none": None, "ci.base_product": ci.base_product, "ci.release": ci.release, "ci.compose": ci.compose,
+          "ci.variant": ci["Sat"], "ci.variants": ci.variants, "im.image": sorted(im.images["Server"]["x86_64"], key=lambda i: i.path)[0],
+          "ti.base_product": ti.base_product, "ti.release": ti.release, "ti.tree": ti.tree, "ti.variant": ti["Server"],
+          "ti.media": ti.media, "ti.stage2": ti.stage2, "di": MISC.discinfo()}[first]
+if target is not None:
+    target.validate()                   # the FIRST validation made in this interpreter
+bad = []
+n = 0
+for base in sys.argv[4].split(","):
+    build, positions, dumper = c06.BASES[base]
+    for label, kind, setter, values in positions(build()):
+        vals = values if values is not None else c06.VT.corrupt_values(kind)
+        for vi in range(len(vals)):
+            o = c06.eval_corruption(base, label, vi)
+            n += 1
+            if o["result"] not in ("TypeError", "ValueError"):
+                bad.append([base, label, vi, o])
+print("ORDER " + json.dumps({"n": n, "bad": bad}))
+"""
+
+
+def eval_order(first, bases):
+    import os
+    import subprocess
+    import sys
+    from mc.core.runner import REPO, VERIF
+    env = dict(os.environ, PYTHONDONTWRITEBYTECODE="1", PYTHONUTF8="1")
+    p = subprocess.run([sys.executable, "-c", ORDER_DRIVER, REPO, VERIF, first, ",".join(bases)], env=env, stdout=subprocess.PIPE,
+                       stderr=subprocess.PIPE, universal_newlines=True, timeout=600)
+    for line in p.stdout.splitlines():
+        if line.startswith("ORDER "):
+            import json
+            return json.loads(line[6:])
+    raise RuntimeError("validation-order driver failed: %s" % p.stderr[-1200:])
+
+
 def units(tier, seed):
     bases = QUICK_BASES if tier == "quick" else sorted(BASES)
     us = [("corrupt", b) for b in bases]
+    us += [("order", f) for f in FIRST_VALIDATED]
     for fmt, mod in (("ci", CI), ("im", IM), ("ti", TI)):
         for name, _ in mod.SEEDS:
             us.append(("converse", fmt, name))
@@ -234,6 +283,19 @@ def run_unit(unit, acc):
                 acc.outcome("position:layered-product-release")
         acc.extra.setdefault("positions", {})[base] = npos
         acc.sample({"base": base, "position": label, "value": o["value"], "dumps": o["result"]}, limit=3)
+    elif unit[0] == "order":
+        bases = ["composeinfo:layered", "composeinfo:forest", "images:v11", "treeinfo:layered", "discinfo"]
+        o = eval_order(unit[1], bases)
+        acc.ev(o["n"])
+        acc.nontriv(("order", unit[1]))
+        if o["bad"]:
+            b = o["bad"][0]
+            acc.violation("accepted-after-first-validating:" + unit[1], {"kind": "order", "first": unit[1], "bases": bases},
+                          {"accepted": [x[:3] for x in o["bad"]][:8]},
+                          "in an interpreter whose first validation was %s.validate(): %s with %s (value #%d) is written (%d such positions)"
+                          % (unit[1], b[0], b[1], b[2], len(o["bad"])))
+        else:
+            acc.outcome("order:refused-whatever-was-validated-first")
     elif unit[0] == "converse":
         _, fmt, name = unit
         mod = {"ci": CI, "im": IM, "ti": TI}[fmt]
@@ -276,6 +338,9 @@ def run_unit(unit, acc):
 def replay(case):
     if case["kind"] == "corrupt":
         return eval_corruption(case["base"], case["label"], case["vi"])
+    if case["kind"] == "order":
+        o = eval_order(case["first"], case["bases"])
+        return {"accepted": [x[:3] for x in o["bad"]][:8]}
     if case["kind"] == "valid":
         return eval_valid(case["fmt"], case["seed"], case["edits"])
     return eval_enum(case["what"], case["value"])
@@ -291,7 +356,8 @@ def describe(tier):
                 "media positions of a treeinfo, the 4 discinfo fields) x every value of the field's corruption alphabet in "
                 "mc/models/validator_table.py (class representatives of the complement of the documented domain) -> dumps() must raise "
                 "TypeError/ValueError.  Converse: every state within one edit of the composeinfo/images/treeinfo seeds (all documented "
-                "release, compose, variant and image types, formats and label names) and every documented tree arch must be written.  "
+                "release, compose, variant and image types, formats and label names) and every documented tree arch must be written; the corruption table of 5 bases is repeated in 14 fresh "
+                "interpreters whose FIRST validation is that of a different class of object (hidden per-class state).  "
                 "Non-trivial: every (base, position, value) triple." % (", ".join(QUICK_BASES if tier == "quick" else sorted(BASES))),
         "bound": "exactly one corrupted field per object",
         "exhaustive": True,
